@@ -1116,6 +1116,18 @@ class World:
         self_ty = it['self_ty'] if it['trait'] is None else it['name']
         have = [mm for mm in it['methods'] if (modpath, f'{self_ty}::{mm["name"]}') in self.vc.fns]
         if it['trait'] is not None and not have:
+            eq = self._from_impl_like_derive(src, m, it)
+            if eq is not None:
+                # a hand-written `impl From<X> for E { fn from(x) -> Self { E::V(x) } }` is exactly what thiserror's `#[from]` on
+                # variant V generates, and R1 gives that the obvious contract: same here (counted as R1)
+                ename, variant, xty = eq
+                self.counters['R1'] += 1
+                out.w(f'\nimpl From<{xty}> for {ename} {{\n'
+                      f'    fn from(e: {xty}) -> (r: Self) ensures r == {ename}::{variant}(e) {{ {ename}::{variant}(e) }}\n}}\n'
+                      f'impl vstd::std_specs::convert::FromSpecImpl<{xty}> for {ename} {{\n'
+                      f'    open spec fn obeys_from_spec() -> bool {{ true }}\n'
+                      f'    open spec fn from_spec(e: {xty}) -> Self {{ {ename}::{variant}(e) }}\n}}\n')
+                return
             self.uncontracted.append({'mod': modpath, 'name': it['name'], 'file': m['file'], 'kind': 'trait-impl'})
             # closed world: R1 gives extracted types the meaning of their *derived* PartialEq / Clone, and the shim gives
             # std traits their std meaning; a hand-written trait impl that is neither under contract nor listed `== skip`
@@ -1143,6 +1155,34 @@ class World:
         for mm in it['methods']:
             self._emit_fn(out, src, m, modpath, mm, f'{self_ty}::{mm["name"]}', reach, indent='    ')
         out.w('}\n')
+
+    def _from_impl_like_derive(self, src, m, it):
+        """(enum, variant, X) when `it` is `impl From<X> for Enum` whose only method is `fn from(p: X) -> Self { Enum::V(p) }` (or
+        `Self::V(p)`) and V is a one-field tuple variant of type X of an enum defined in the same file; else None"""
+        mt = re.fullmatch(r'From\s*<\s*(.+?)\s*>', (it.get('trait') or '').strip())
+        if not mt or len(it['methods']) != 1 or it['methods'][0]['name'] != 'from' or it.get('types') or it.get('consts'):
+            return None
+        xty = re.sub(r'\s+', '', mt.group(1))
+        ename = re.sub(r'\s+', '', it.get('self_ty') or '')
+        mm = it['methods'][0]
+        ins = mm['sig']['inputs']
+        if len(ins) != 1 or re.sub(r'\s+', '', ins[0].get('ty') or '') != xty:
+            return None
+        pname = ins[0]['name']
+        body = re.sub(r'\s+', '', re.sub(rb'//[^\n]*', b'', src[mm['block'][0]:mm['block'][1]]).decode())
+        mb = re.fullmatch(r'\{(?:Self|' + re.escape(ename) + r')::(\w+)\(' + re.escape(pname) + r'\)\}', body)
+        if not mb:
+            return None
+        path = os.path.join(REPO, m['file'])
+        en = next((i for i in self.index[path]['items'] if i['kind'] == 'enum' and i['name'] == ename), None)
+        if en is None:
+            return None
+        v = next((v for v in en['variants'] if v['name'] == mb.group(1)), None)
+        if v is None or len(v['fields']['fields']) != 1 or re.sub(r'\s+', '', v['fields']['fields'][0]['ty']) != xty:
+            return None
+        if any(a['path'] == 'from' for a in v['fields']['fields'][0]['attrs']):
+            return None   # thiserror would generate the impl as well: not valid Rust anyway
+        return ename, mb.group(1), xty
 
     def _emit_trait(self, out, src, m, modpath, it, reach):
         if (modpath, it['name']) in self.vc.skips:
